@@ -3030,3 +3030,7 @@ mod tests {
         );
     }
 }
+
+#[cfg(kani)]
+#[path = "/verif/kani/arrow-select/take.rs"]
+mod verif_kani;
